@@ -725,7 +725,8 @@ impl Sim {
                     0 => "roundtrip_tokens_readable",
                     1 => "roundtrip_tokens_compact",
                     2 => "roundtrip_json",
-                    _ => "roundtrip_tokens_compact_struct_as_seq",
+                    3 => "roundtrip_tokens_compact_struct_as_seq",
+                    _ => "roundtrip_json_value_sorted_keys",
                 });
             }
             Op::Snapshot { slot, enc } => {
